@@ -27,6 +27,36 @@ def resolve(qualname):
     return obj
 
 
+def _default_stateful():
+    """Library callables whose result depends on mutable state outside the program's values (file system, clock, RNG,
+    environment).  A repository function wrapped in functools.lru_cache / cache that reaches one of them returns stale
+    results over a call history; see Interp.call_memoised."""
+    import os
+    import pathlib
+    import random
+    import shutil
+    import tempfile
+    import time
+    import zipfile
+
+    out = {open, os.path.exists, os.path.isfile, os.path.isdir, os.path.getsize, os.path.getmtime, os.listdir, os.stat, os.scandir,
+           os.walk, os.getcwd, os.getenv, time.time, time.perf_counter, time.monotonic, zipfile.ZipFile, zipfile.is_zipfile,
+           tempfile.TemporaryDirectory, tempfile.mkdtemp, tempfile.NamedTemporaryFile, tempfile.mkstemp,
+           shutil.copy, shutil.copy2, shutil.copytree, shutil.copyfile, shutil.unpack_archive, random.random, random.randint}
+    for nm in ("exists", "is_file", "is_dir", "read_text", "read_bytes", "open", "iterdir", "glob", "rglob", "stat", "resolve"):
+        out.add(getattr(pathlib.Path, nm))
+    for modname, names in (("zarr", ("open", "open_group", "open_array", "load")), ("numpy", ("load", "loadtxt", "fromfile")),
+                           ("torch", ("load",))):
+        try:
+            mod = __import__(modname)
+            for nm in names:
+                if hasattr(mod, nm):
+                    out.add(getattr(mod, nm))
+        except Exception:
+            pass
+    return out
+
+
 class Registry:
     def __init__(self, repo_prefix="quantem"):
         self.repo_prefix = repo_prefix
@@ -50,6 +80,7 @@ class Registry:
         self.loops = {}           # (func qualname (frame name), ordinal) -> LoopSpec
         self.noop_calls = {"print", "warn", "tqdm", "collect", "empty_cache"}
         self._loop_ord = {}
+        self.stateful = _default_stateful()  # callables that READ mutable external state (memoising a caller of one is flagged)
 
     def model(self, *fs):
         def deco(h):
@@ -227,6 +258,7 @@ class Contract:
                         ctx.prove(f"post-raise:{E.__name__}:{lab}", t, kind="post-raise", assume_after=False)
                 return ("raise", E.__name__)
             s.result = res
+            interp.check_memoised_results()
             for EC, cond in self.raises.items():
                 ctx.prove(f"raises:{EC.__name__}:whenever{sfx}", z3.Not(lift(cond(s))), kind="raises")
             ens = self.labelled(self.ensures(s))
@@ -238,9 +270,22 @@ class Contract:
 
         results = explore(run, max_paths=self.max_paths, stop_after=path_limit)  # path_limit: canary sampling (runner), None = all paths
         n_paths = 0
+        memo_bad = []
         for ctx, out in results:
             n_paths += 1
             outcomes.append(out)
             for ob in ctx.obligs:
                 obligs.setdefault(ob.key(), ob)
-        return list(obligs.values()), outcomes
+            for b in ctx.ghost.get("memo_bad", ()):
+                if b not in memo_bad:
+                    memo_bad.append(b)
+        obs = list(obligs.values())
+        if mutate_goal is None:
+            # one summary obligation per contract (always generated, so it is in the baseline): no call through a memoising
+            # wrapper (functools.lru_cache / cache) read mutable external state or had its cached result written afterwards -
+            # either makes the function's result depend on the call HISTORY, which no per-call contract clause can see
+            from .path import Obligation
+
+            obs.append(Obligation("frame:memoised-calls-read-no-mutable-state-and-their-cached-results-are-never-written",
+                                  [], z3.BoolVal(not memo_bad), kind="frame", meta={"events": "; ".join(memo_bad)[:600]}))
+        return obs, outcomes
